@@ -294,6 +294,86 @@ def _fold_none_tests(e):
     return T().visit(e)
 
 
+def _unroll_table_loops(fn, view):
+    """`for key, value in <table>: ...` / `for f in <tuple of functions>: ...` where the table is a literal - written in place, bound once
+    in the method, or (through `view`) the literal argument a caller passes for a parameter: the loop is replaced by its body once per row,
+    the loop variables replaced by the row's entries.  Returns `fn` itself when there is nothing to unroll."""
+    import copy
+    from .core import _strip_parents
+
+    def literal_rows(it):
+        e = it
+        if isinstance(e, ast.Name):
+            defs = [s_ for s_ in walk_no_nested(fn) if isinstance(s_, ast.Assign) and any(isinstance(t, ast.Name) and t.id == e.id for t in s_.targets)]
+            if len(defs) == 1:
+                e = defs[0].value
+            elif not defs:
+                try:
+                    e = view.expr(e)
+                except Exception:
+                    return None
+        if isinstance(e, (ast.Tuple, ast.List)) and 0 < len(e.elts) <= 40 and not any(isinstance(x, ast.Starred) for x in e.elts):
+            return list(e.elts)
+        return None
+
+    todo = []
+    for st in walk_no_nested(fn):
+        if isinstance(st, ast.For) and not st.orelse and not any(isinstance(x, (ast.Break, ast.Continue)) for x in ast.walk(st)):
+            rows = literal_rows(st.iter)
+            if rows is None:
+                continue
+            tg = st.target
+            names = [tg.id] if isinstance(tg, ast.Name) else ([x.id for x in tg.elts] if isinstance(tg, ast.Tuple) and all(isinstance(x, ast.Name) for x in tg.elts) else None)
+            if names is None or any(isinstance(x, ast.Name) and isinstance(x.ctx, ast.Store) and x.id in names for b in st.body for x in ast.walk(b)):
+                continue
+            if isinstance(tg, ast.Tuple) and not all(isinstance(r, (ast.Tuple, ast.List)) and len(r.elts) == len(names) for r in rows):
+                continue
+            todo.append((st, names, rows))
+    if not todo:
+        return fn
+    new = copy.copy(fn)
+    new.body = [_strip_parents(s_) for s_ in fn.body]
+    # re-locate the loops in the copy by position (same traversal order)
+    orig_loops = [st for st in walk_no_nested(fn) if isinstance(st, ast.For)]
+    copy_loops = [st for st in walk_no_nested(new) if isinstance(st, ast.For)]
+    plan = {id(copy_loops[orig_loops.index(st)]): (names, rows) for st, names, rows in todo}
+
+    class Sub(ast.NodeTransformer):
+        def __init__(self, m):
+            self.m = m
+
+        def visit_Name(self, n):
+            if n.id in self.m and isinstance(n.ctx, ast.Load):
+                return _strip_parents(self.m[n.id])
+            return n
+
+    def rewrite(stmts):
+        out = []
+        for s_ in stmts:
+            for f in ("body", "orelse", "finalbody"):
+                b = getattr(s_, f, None)
+                if isinstance(b, list) and b and isinstance(b[0], ast.stmt):
+                    setattr(s_, f, rewrite(b))
+            if id(s_) in plan:
+                names, rows = plan[id(s_)]
+                for r in rows:
+                    m = dict(zip(names, r.elts)) if len(names) > 1 or isinstance(s_.target, ast.Tuple) else {names[0]: r}
+                    for b in s_.body:
+                        c = Sub(m).visit(copy.deepcopy(b))
+                        ast.copy_location(c, s_)
+                        out.append(c)
+            else:
+                out.append(s_)
+        return out
+
+    new.body = rewrite(new.body)
+    ast.fix_missing_locations(new)
+    for node in ast.walk(new):
+        for ch in ast.iter_child_nodes(node):
+            ch._parent = node
+    return new
+
+
 def written_keys(fn, methods, seen=None, view=None):
     """literal keys a Scenarios method writes into its dict parameters (helpers inlined).  key -> [(statement, conditional?, value)]
     where value is the stored expression as the outermost method sees it: a helper's parameters stand for the caller's arguments"""
@@ -309,6 +389,7 @@ def written_keys(fn, methods, seen=None, view=None):
                 from .core import _strip_parents
                 return _strip_parents(e)
         view = _Ident()
+    fn = _unroll_table_loops(fn, view)
     for st in walk_no_nested(fn):
         tgts = []
         if isinstance(st, ast.Assign):
@@ -881,9 +962,13 @@ def effect(index, rep, sinfo, disp):
     setters, methods = sinfo["setters"], sinfo["methods"]
     by_fam = {}
     keysets = {}
+    dispatched = set(disp["setter_of"].values())
+    delegated_to = {info.get("delegates_to") for info in setters.values() if info.get("delegates_to")}
     for name, info in setters.items():
         wk = written_keys(info["fn"], methods)
         keysets[name] = wk
+        if name in delegated_to and name not in dispatched:
+            continue        # a shared body the dispatched setters hand over to (with their own tables): judged through them, not on its own
         by_fam.setdefault(info["family"], []).append(name)
     sinfo["keysets"] = keysets
     read_anywhere = all_read_keys(index)
@@ -1280,8 +1365,45 @@ def override(index, rep):
 # ------------------------------------------------------------------------------------------ C13.KEYS
 
 
+_SUBTABLE_PREFIX = {}
+
+
+def _subtable_prefixes(index):
+    """(method name, parameter) -> "K": every call of the method in src/ hands `<constants table>["K"]` over for that parameter, so what the
+    method reads from the parameter are entries of the sub-table K"""
+    if id(index) in _SUBTABLE_PREFIX:
+        return _SUBTABLE_PREFIX[id(index)]
+    from .core import bind_args
+    defs, calls = {}, {}
+    for rel in index.py_files("src"):
+        mod = index.module(rel)
+        for f_ in [n for n in ast.walk(mod) if isinstance(n, ast.FunctionDef)]:
+            defs.setdefault(f_.name, []).append(f_)
+        for c in [n for n in ast.walk(mod) if isinstance(n, ast.Call) and isinstance(n.func, ast.Attribute)]:
+            calls.setdefault(c.func.attr, []).append(c)
+    out = {}
+    for name, fs in defs.items():
+        if len(fs) != 1 or name not in calls or name.startswith("__"):
+            continue
+        fn = fs[0]
+        per_param = {}
+        for c in calls[name]:
+            for p_, a_ in bind_args(c, fn).items():
+                k_ = None
+                if isinstance(a_, ast.Subscript) and isinstance(a_.value, ast.Name) and a_.value.id in ("constants_for_params", "constants_inputs", "constants") \
+                        and str_const(a_.slice):
+                    k_ = str_const(a_.slice)
+                per_param.setdefault(p_, []).append(k_)
+        for p_, ks in per_param.items():
+            if ks and all(k == ks[0] and k is not None for k in ks):
+                out[(name, p_)] = ks[0]
+    _SUBTABLE_PREFIX[id(index)] = out
+    return out
+
+
 def reads_of(index, rel, dictnames):
     out = []
+    pre = _subtable_prefixes(index)
     for n in ast.walk(index.module(rel)):
         if isinstance(n, ast.Subscript) and isinstance(n.ctx, ast.Load):
             base, ks = key_chain(n)
@@ -1290,6 +1412,12 @@ def reads_of(index, rel, dictnames):
                 p = getattr(n, "_parent", None)
                 if isinstance(p, ast.Subscript) and p.value is n:
                     continue
+                # a parameter that every caller binds to one sub-table: the keys read are that sub-table's
+                f_ = p
+                while f_ is not None and not isinstance(f_, ast.FunctionDef):
+                    f_ = getattr(f_, "_parent", None)
+                if f_ is not None and (f_.name, base) in pre:
+                    ks = [pre[(f_.name, base)]] + list(ks)
                 out.append((".".join(ks), n))
     return out
 
@@ -1303,9 +1431,13 @@ def keys(index, rep, sinfo, disp):
     generic = written_keys(methods["init_generic_scenario"], methods)
     always = set(generic) | (set(init_c) & set(init_g))
     by_fam = {}
+    dispatched_ = set(disp["setter_of"].values())
+    delegated_to_ = {info.get("delegates_to") for info in setters.values() if info.get("delegates_to")}
     for n, info in setters.items():
         if info["family"] in ("SCALE_SET", "GENERIC_INITIALIZED_SET"):
             continue
+        if n in delegated_to_ and n not in dispatched_:
+            continue        # a shared body, applied only through the dispatched setters that hand their tables to it
         by_fam.setdefault(info["family"], []).append(n)
     sometimes = set()
     for fam, names in by_fam.items():
